@@ -22,7 +22,8 @@ CONSTANTS Kinds,        \* request kinds: "static", "dynamic", "optional" (a dyn
 Fresh == [data |-> {}, params |-> "none", errors |-> 0, aborted |-> FALSE, status |-> 0, length |-> -1,
           resp |-> "own", req |-> "cur",
           router |-> "own",     \* Context.Router(): the router that serves the request
-          query |-> "own"]      \* Context.Query*/QueryValues(): the query of THIS request's URL
+          query |-> "own",      \* Context.Query*/QueryValues(): the query of THIS request's URL
+          accept |-> "own"]     \* Context.AcceptedTypes(): the types of THIS request's Accept header
 
 VARIABLES pool,    \* set of idle contexts (records with residue)
           last     \* [kind, muts, seen]: what the first handler of the last request observed
@@ -41,7 +42,8 @@ InitCtx(c, viaServeHTTP) ==
     resp    |-> IF D_KeepResp THEN c.resp ELSE "own",
     req     |-> IF D_KeepReq \/ ~viaServeHTTP THEN c.req ELSE "cur",
     router  |-> "own",          \* a context belongs to the pool of one router
-    query   |-> "own" ]         \* parsed from the request on demand, nothing is kept
+    query   |-> "own",          \* parsed from the request on demand, nothing is kept
+    accept  |-> "own" ]
 
 \* what the dispatcher itself stores before the first handler runs
 Dispatched(c, kind) == [c EXCEPT !.params = IF kind = "dynamic" THEN "own" ELSE c.params,
@@ -51,7 +53,9 @@ Dispatched(c, kind) == [c EXCEPT !.params = IF kind = "dynamic" THEN "own" ELSE 
 Pristine(kind) == Dispatched(Fresh, kind)
 
 Mutate(c, muts) ==
-  [ data    |-> c.data \cup (IF "set" \in muts THEN {"k"} ELSE {}),
+  [ \* "datawrite": the handler writes through the map Data() hands out (nil, hence nothing to write into, when the
+    \* dispatcher has stored nothing for this kind of request)
+    data    |-> c.data \cup (IF "set" \in muts THEN {"k"} ELSE {}) \cup (IF "datawrite" \in muts /\ c.data # {} THEN {"k2"} ELSE {}),
     params  |-> IF "params" \in muts THEN "dirty" ELSE c.params,
     errors  |-> c.errors + (IF "error" \in muts THEN 1 ELSE 0),
     aborted |-> c.aborted \/ "abort" \in muts,
@@ -64,7 +68,8 @@ Mutate(c, muts) ==
     \* "delegate": the handler hands its context to ANOTHER router (other.HandleContext(c)), which dispatches on it;
     \* "query": the handler edits the url.Values it got from QueryValues() - both leave nothing behind in the model
     router  |-> c.router,
-    query   |-> c.query ]
+    query   |-> c.query,
+    accept  |-> c.accept ]
 
 Request(kind, muts) ==
   /\ \E c \in pool \cup {Fresh} :
